@@ -130,6 +130,7 @@ is_ipv6 (const char *start, const char *end)
                 }
                 null_field = field;
             }
+            EAV_VERIF_AT(is_ipv6_colon)
         } break;
         default: {
             /* Advance by at least 1 character position or terminate. */
@@ -142,6 +143,7 @@ is_ipv6 (const char *start, const char *end)
                 /* invalid character in IPv6 address */
                 return (NO);
             }
+            EAV_VERIF_AT(is_ipv6_hex)
             cp += len;
         } break;
         } /* switch */
